@@ -485,4 +485,7 @@ def run(P, R, tier):
     c11.ok_query(P, R, 'C05.GRD.5')
     # relayed texts end where the line ends: CR LF is one terminator
     c08.line_splitting(P, R, 'C05.TAB.4')
+    # the account a class rule sees is this client's stamp, not a copy kept from an earlier client
+    from . import c07
+    c07.storage_audit(P, Remap(R, {'C07.WMC.1': 'C05.WMC.4', 'C07.WMC.2': 'C05.WMC.4'}))
     return EXPLANATION, ASSUMPTIONS
